@@ -566,7 +566,7 @@ fn sim_thread_inner(sh: Arc<Shared>, me: usize) {
                     }
                 }
             }
-            let inst = op.uses_inst();
+            let inst = op.uses_inst() || op.is_big();
             if inst {
                 SUPPRESS.with(|s| s.set(true));
             }
